@@ -283,7 +283,11 @@ def scan(ctx, prog, rep, cfgd, control):
                 n_mc += 1
                 nargs = prim[callee_info(y_)["qname"]]
                 cells_ = [canon(a_) for a_ in callee_info(y_)["args"][:nargs]]
-                gs_ = ctx.guards(f_, y_) or []
+                gs_ = []
+                for gc, val, _a, _b in (ctx.guards(f_, y_, derived=True) or []):
+                    if gc[0] == "bin" and gc[1] == "!=" and isinstance(val, bool):
+                        gc, val = ("bin", "==", gc[2], gc[3]), not val           # one spelling for (in)equalities
+                    gs_.append((gc, val, _a, _b))
                 bad_ = []
                 for c_ in cells_:
                     ok_ = False
